@@ -292,11 +292,18 @@ func (fr *frame) scanCallMods(m *loopMods, info *types.Info, call *ast.CallExpr,
 				switch fn.FullName() {
 				case "(*sync.Mutex).Lock", "(*sync.RWMutex).Lock", "(*sync.RWMutex).RLock":
 					// guarded fields are havoc'd at acquisition
-					lockSel, isSel := unparen(f.X).(*ast.SelectorExpr)
-					if !isSel {
-						return // embedded mutex (b.Lock()): no `guarded` declaration can name it
+					var ownerT types.Type
+					if lockSel, isSel := unparen(f.X).(*ast.SelectorExpr); isSel {
+						if ls, ok := info.Selections[lockSel]; ok && ls.Kind() == types.FieldVal && (typeName(ls.Obj().Type()) == "sync.Mutex" || typeName(ls.Obj().Type()) == "sync.RWMutex") {
+							ownerT = info.TypeOf(lockSel.X)
+						}
 					}
-					ownerT := info.TypeOf(lockSel.X)
+					if ownerT == nil {
+						ownerT = info.TypeOf(f.X) // embedded mutex: x.Lock()
+					}
+					if ownerT == nil {
+						return
+					}
 					if p, ok := ownerT.Underlying().(*types.Pointer); ok {
 						ownerT = p.Elem()
 					}
